@@ -16,7 +16,7 @@
  *   (e) interactive mode: prints "STOP ..." before every call and waits for
  *       a command on stdin:  c = continue, k = kill, f <errno> = fail.
  *
- * usage: shim -r ROOT [-l LOG] [-f K:ERRNO[:COUNT]] [-k K] [-s SNAPDIR | -S SNAPDIR] [-i]
+ * usage: shim -r ROOT [-l LOG] [-f K:ERRNO[:COUNT]]... (up to 8 -f) [-k K] [-s SNAPDIR | -S SNAPDIR] [-i]
  *             -- cmd args...
  *   -S SNAPDIR : snapshot only at the END marker (SNAPDIR/end)
  * exit status: that of the command; 137 when killed by -k / k.
@@ -45,7 +45,9 @@ static size_t rootlen;
 static FILE *logf;
 static const char *snapdir;
 static int interactive, snap_end_only;
-static long fail_k = -1, fail_errno = 0, fail_count = 1, kill_k = -1;
+#define MAXFAIL 8
+static long fail_k[MAXFAIL], fail_errno[MAXFAIL], fail_count[MAXFAIL], kill_k = -1;
+static int nfail;
 static pid_t child;
 
 struct sc { long nr; const char *name; int kind; };
@@ -174,9 +176,13 @@ int main(int argc, char **argv)
     else if (!strcmp(argv[a], "-i")) interactive = 1;
     else if (!strcmp(argv[a], "-f") && a + 1 < argc) {
       char *s = argv[++a];
-      fail_k = strtol(s, &s, 10);
-      if (*s == ':') fail_errno = strtol(s + 1, &s, 10);
-      if (*s == ':') fail_count = strtol(s + 1, &s, 10);
+      if (nfail < MAXFAIL) {
+        fail_k[nfail] = strtol(s, &s, 10);
+        fail_errno[nfail] = 0; fail_count[nfail] = 1;
+        if (*s == ':') fail_errno[nfail] = strtol(s + 1, &s, 10);
+        if (*s == ':') fail_count[nfail] = strtol(s + 1, &s, 10);
+        nfail++;
+      }
     } else { fprintf(stderr, "shim: bad option %s\n", argv[a]); return 2; }
     a++;
   }
@@ -269,8 +275,10 @@ int main(int argc, char **argv)
       cur_logged = 1; cur_name = e->name;
       /* this is logged call number idx */
       if (snapdir && !snap_end_only) { char t[32]; snprintf(t, sizeof t, "%ld", idx); snapshot(t); }
-      int do_kill = (idx == kill_k), do_fail = (idx >= fail_k && fail_k >= 0 && idx < fail_k + fail_count);
-      cur_errno = fail_errno;
+      int do_kill = (idx == kill_k), do_fail = 0, fi;
+      cur_errno = 0;
+      for (fi = 0; fi < nfail; fi++)
+        if (idx >= fail_k[fi] && idx < fail_k[fi] + fail_count[fi]) { do_fail = 1; cur_errno = fail_errno[fi]; }
       if (interactive) {
         char line[128];
         printf("STOP\t%ld\t%s\t%s\t%s\t%ld\n", idx, cur_name, rp1, rp2, cur_arg);
